@@ -10,6 +10,7 @@ from vpm.labels import enc, dec
 from vpm.ref import prob as RP
 
 PROPERTY_ID = "C11"
+FUZZ = {"props": ["ops", "pipeline"], "quick": [2, 1500], "thorough": [8, 40000]}
 RULE = ("Distribution specs of every kind (dict, uniform, deterministic, softmax, table-backed) over 1-6 events from "
         "a mixed-hashable pool (ints, strings, tuples, frozensets, None, floats), integer weights incl. zero "
         "entries, normalised or not; function arguments as lookup tables over the support (projections with "
